@@ -320,6 +320,7 @@ def attach(tr):
                     "size_reduction": params.get("size_reduction"),
                     "trade_params": (trade.reset_seconds, trade.place_reset_seconds, trade.pending_orders),
                     "trade_status": trade.status.name,
+                    "ctx_id": id(strategy._invested[order.lookup]) if order.lookup in strategy._invested else None,
                     "position": position_view(self.market, strategy) if kind in ("PLACE", "REPLACE") and TR.want_positions else None,
                     "book": book_view(self.market) if kind in ("PLACE", "REPLACE") and TR.want_positions else None,
                     "candidate": exposure_view(order) if kind in ("PLACE", "REPLACE") and TR.want_positions else None,
